@@ -121,6 +121,10 @@ structure Shared where
   /-- is `timeout` configured (not None)? -/
   timeout : Bool := false
   ignoreError : Bool := false
+  /-- do the `get_batch` callers of this queue pass `keep_partial=True` (repair of finding F7)?  In the
+  code this is an argument of the call; the only caller that passes it is the prefetching server's
+  `_next_batch`, which is the only consumer of its queue, so the model keeps it per queue. -/
+  keepPartial : Bool := false
   /-- ghost: every value successfully put, in put order -/
   produced : List Elem := []
   /-- ghost: every value taken out of the queue, in dequeue order -/
@@ -264,7 +268,10 @@ def afterRaise (c : Caller) (x : Raise) (s : Shared) (t : Thread) : Shared × Th
       -- iter_utils.py:659-663
       if !t.result.isEmpty then (s, { t with pc := .bExit }) else (s, { t with pc := .bRaise, x := x })
     | .err _ =>
-      if s.ignoreError then (s, { t with pc := .bExit }) else (s, { t with pc := .bRaise, x := x })
+      if s.ignoreError then (s, { t with pc := .bExit })
+      -- `if keep_partial and result and self._exhausted: break` (repair of finding F7)
+      else if s.keepPartial && !t.result.isEmpty && s.exhausted then (s, { t with pc := .bExit })
+      else (s, { t with pc := .bRaise, x := x })
 
 /-- what the caller of `get_nowait` does with a value -/
 def afterValue (c : Caller) (s : Shared) (t : Thread) : Shared × Thread :=
